@@ -392,6 +392,19 @@ def _asarr(x, *a, **k):
 _asarr._wants_dtype = True
 
 
+def _array(x, *a, **k):
+    """np.array copies (unless told not to); np.asarray hands back the same array when no conversion is needed"""
+    cp = k.pop('copy', True)
+    k.pop('order', None)
+    out = _asarr(x, *a, **k)
+    if cp and out is x and is_arr(out):
+        out = out.copy()
+    return out
+
+
+_array._wants_dtype = True
+
+
 def _deep(x):
     if isinstance(x, (list, tuple)):
         return [_deep(v) for v in x]
@@ -520,7 +533,7 @@ class ToleranceLog:
 
 
 NP_FUNCS = {
-    'numpy.array': _asarr, 'numpy.asarray': _asarr, 'numpy.asanyarray': _asarr,
+    'numpy.array': _array, 'numpy.asarray': _asarr, 'numpy.asanyarray': _asarr,
     'numpy.zeros': _zeros, 'numpy.empty': _zeros, 'numpy.ones': _ones,
     'numpy.zeros_like': lambda x, *a, **k: _zeros(_like_shape(x, k)), 'numpy.empty_like': lambda x, *a, **k: _zeros(_like_shape(x, k)),
     'numpy.broadcast_to': lambda x, shape: np.broadcast_to(np.asarray(x, dtype=object), tuple(int(v) for v in shape)).copy(),
